@@ -40,9 +40,10 @@ class Variables:
                 set_expressions = expr.args.get("expressions")
                 assert set_expressions, "SET without values in expression(s) is unexpected."
                 eq = set_expressions[0].this
-                name = eq.this.sql()
+                # comments next to the name or the value are not part of them
+                name = eq.this.sql(comments=False)
                 value_expr = eq.args.get("expression")
-                value = value_expr.sql(dialect="snowflake")
+                value = value_expr.sql(dialect="snowflake", comments=False)
                 if not isinstance(value_expr, (exp.Literal, exp.Boolean, exp.Null)):
                     # keep an expression value together when it is substituted into a larger expression
                     value = f"({value})"
